@@ -1,10 +1,11 @@
 #!/bin/sh
-# tools/try_seed.sh <patch> <ID> [tier]: apply a patch to the scratch tree /tmp/wt-lead, run the
-# check against it through the scratch harness /tmp/h-lead, and restore the scratch tree.
+# tools/try_seed.sh <patch> <ID> [tier]: apply a patch to the scratch tree $WT (default /tmp/wt-lead), run the
+# check against it through the scratch harness $H (default /tmp/h-lead), and restore the scratch tree.
 set -e
 patch=$1; id=$2; tier=${3:-quick}
-cd /tmp/wt-lead && git checkout -q -- . && git apply "$patch"
-rsync -a --exclude target --exclude Cargo.toml /verif/harness/ /tmp/h-lead/
-cd /verif && FV_HARNESS=/tmp/h-lead ./check $id --tier $tier 2>&1 | grep -E "VIOLATION|KNOWN-FINDING|^\[C|TOOL-ERROR" | head -${LINES_MAX:-8}
+WT=${WT:-/tmp/wt-lead}; H=${H:-/tmp/h-lead}
+cd $WT && git checkout -q -- . && git apply "$patch"
+rsync -a --exclude target --exclude Cargo.toml /verif/harness/ $H/
+cd /verif && FV_HARNESS=$H ./check $id --tier $tier 2>&1 | grep -E "VIOLATION|KNOWN-FINDING|^\[C|TOOL-ERROR" | head -${LINES_MAX:-8}
 echo "exit: $?"
-cd /tmp/wt-lead && git checkout -q -- .
+cd $WT && git checkout -q -- .
